@@ -1,6 +1,8 @@
 package tun
 
 import (
+	"fmt"
+	"os"
 	"runtime"
 	"strings"
 	"testing"
@@ -76,6 +78,11 @@ func TestC10R(t *testing.T) {
 			rec.Inconclusive("initial connect failed")
 			return nil
 		}
+		if os.Getenv("VERIF_DUMP") != "" {
+			for _, l := range Dump(res.Events, 0) {
+				fmt.Println(l)
+			}
+		}
 		if f := oracleC10(p, res, false); f != nil {
 			return f
 		}
@@ -118,5 +125,34 @@ func TestC03R(t *testing.T) {
 		return nil
 	}
 	common.Drive(t, rec, func(rt *rapid.T) *Plan { return genPlanC03R(rt) }, run)
+	completed = true
+}
+
+func TestC09R(t *testing.T) {
+	rec := common.NewRec("C09", "real")
+	completed := false
+	defer func() { rec.Finish(completed) }()
+	run := func(p *Plan) *common.Fail {
+		rec.InFlight(p)
+		res := runReal(p)
+		rec.Landed()
+		if res.ConnErr != "" {
+			rec.Inconclusive("initial connect failed")
+			return nil
+		}
+		f, queued := oracleC09R(p, res)
+		if f != nil {
+			return f
+		}
+		if queued {
+			rec.Class("real: a Send queued before a reconnect was first transmitted after it")
+			rec.NonTrivial(common.HashJSON(p))
+		} else {
+			rec.Class("real: no Send crossed a reconnect")
+		}
+		rec.Sample("real", map[string]any{"plan": p})
+		return nil
+	}
+	common.Drive(t, rec, func(rt *rapid.T) *Plan { return genPlanC09R(rt) }, run)
 	completed = true
 }
